@@ -318,6 +318,8 @@ where
           }
         {
           log_carryover_drain!(self.handle, core_carryover.len());
+          #[cfg(rzmq_verif)]
+          crate::verif::count("sca.carryover.drain");
           outgoing_batch.clear();
           let wire_size = |msgs: &FrameBatch| msgs.iter().map(|m| m.size() + 9).sum::<usize>();
           let hwm_budget = sndhwm
@@ -367,12 +369,16 @@ where
                 .try_recv_batch_from_core(&mut outgoing_batch, needed);
 
               if drained > 0 {
+                #[cfg(rzmq_verif)]
+                crate::verif::count("sca.carryover.topup");
                 let mut i = start_len;
                 while i < outgoing_batch.len() {
                   let size = wire_size(&outgoing_batch[i]);
                   if total_bytes + size > max_bytes && i > 0 {
                     // We exceeded the byte limit!
                     // Move the overflow into carryover for the next cycle and stop.
+                    #[cfg(rzmq_verif)]
+                    crate::verif::count("sca.carryover.topup_overflow");
                     core_carryover.extend(outgoing_batch.drain(i..));
                     break;
                   }
@@ -623,12 +629,16 @@ where
                     );
 
                     if drained > 0 {
+                      #[cfg(rzmq_verif)]
+                      crate::verif::count("sca.batch.topup");
                       let mut i = start_len;
                       while i < outgoing_batch.len() {
                         let size = wire_size(&outgoing_batch[i]);
                         if total_bytes + size > max_bytes && i > 0 {
                           // We exceeded the byte limit!
                           // Move the overflow into carryover for the next cycle and stop.
+                          #[cfg(rzmq_verif)]
+                          crate::verif::count("sca.batch.overflow_to_carryover");
                           core_carryover.extend(outgoing_batch.drain(i..));
                           break;
                         }
@@ -918,7 +928,10 @@ where
           self.set_fatal_error(e).await;
           return;
         }
-        AppAction::DeliverMessage(_) => {}
+        AppAction::DeliverMessage(_) => {
+          #[cfg(rzmq_verif)]
+          crate::verif::count("sca.hs.deliver_in_handshake");
+        }
       }
     }
   }
